@@ -598,8 +598,33 @@ OFFSET_TABLES = ("comments", "padding", "symbolicExpressionSizes")
 
 
 def check_c04(mt, sess):
+    _check_patch_addends(sess)
     _check_exprs(mt, sess)
     _check_offset_aux(mt, sess)
+
+
+def _check_patch_addends(sess):
+    """Independent of what the assembler reported: an operand the patch text
+    writes as a plain symbol (the vocabulary never writes 'sym+N') is a
+    symbolic expression with addend 0, wherever the operand sits inside its
+    instruction."""
+    for c in sess.captures:
+        cap = c["cap"]
+        if cap is None:
+            continue
+        pdesc = sess.desc["ops"][c["op"]].get("patch") or {}
+        named = {l["t"] for l in (pdesc.get("lines") or []) if l.get("t") and not l.get("ttemp") and l.get("v")}
+        if not named:
+            continue
+        sec = cap["sections"][cap["text"]]
+        for off, (size, ed) in sorted(sec["sx"].items()):
+            if ed[0] == "const" and ed[1] in named and ed[3] != 0:
+                raise core.Violation(
+                    "C04",
+                    "expr-attrs/addend",
+                    {"what": "operand written as a plain symbol got an addend", "symbol": ed[1], "addend": ed[3], "patch_offset": off, "op": c["op"]},
+                    {"where": "patch", "kind": "addend-from-assembler"},
+                )
 
 
 def _check_exprs(mt, sess, allow_dup_names=False):
